@@ -77,6 +77,16 @@ func (p *JSONParser) Parse(jsonString string) (*core.Payload, error) {
 		return nil, core.ErrParsingPayload.Wrap("json lists cannot contain null elements")
 	}
 
+	// A oneof holds a single member. The proto JSON unmarshaler accepts an
+	// object spelling several members of the same oneof and keeps whichever
+	// it visits last while ranging over a Go map, so the decoded payload
+	// would not be a deterministic function of the memo.
+	if hasAmbiguousFeeType(jsonData) {
+		return nil, core.ErrParsingPayload.Wrap(
+			"a fee entry must set exactly one of basis_points and amount",
+		)
+	}
+
 	pw := core.PayloadWrapper{}
 	err = types.UnmarshalJSON(p.cdc, []byte(jsonString), &pw)
 	if err != nil {
@@ -102,6 +112,41 @@ func hasNullListElement(v any) bool {
 	case []any:
 		for _, e := range t {
 			if e == nil || hasNullListElement(e) {
+				return true
+			}
+		}
+	}
+
+	return false
+}
+
+// feeTypeKeys are the JSON names accepted for the members of
+// the fee type oneof of a fee entry.
+var feeTypeKeys = []string{"basis_points", "basisPoints", "amount"}
+
+// hasAmbiguousFeeType reports whether any object nested in the
+// decoded JSON value spells more than one member of the fee type
+// oneof.
+func hasAmbiguousFeeType(v any) bool {
+	switch t := v.(type) {
+	case map[string]any:
+		n := 0
+		for _, k := range feeTypeKeys {
+			if _, found := t[k]; found {
+				n++
+			}
+		}
+		if n > 1 {
+			return true
+		}
+		for _, e := range t {
+			if hasAmbiguousFeeType(e) {
+				return true
+			}
+		}
+	case []any:
+		for _, e := range t {
+			if hasAmbiguousFeeType(e) {
 				return true
 			}
 		}
